@@ -14,5 +14,12 @@ CHECKS = {
         design_ref="DESIGN.md section 3, C02",
         note=NOTE_L1 + "; M_geo (mc/model.py, ~300 lines of formulas) is trusted and cross-checked by the algebraic laws of C09-C11",
     ),
+    "C13": dict(
+        engine="lattice",
+        technique="bounded exhaustive enumeration of accessor/predicate x coordinate system x backend x full boundary-heavy alphabet x tolerance; exact range, sign and iff oracles evaluated at every point",
+        text="Every range, sign and classification clause of the statement is evaluated on float64 object vectors, NumPy arrays and 60-digit vectors for all coordinate systems and the full alphabet including axis-aligned, zero, +-pi azimuth, light-like, t=0 and negative-time strata, with tolerances {0, 1e-5, 0.25}; the angle predicates are decided against the exact cosine on pairs a factor 2 away from the decision boundary.",
+        design_ref="DESIGN.md section 3, C13",
+        note="trusted base: CPython, NumPy, mpmath, the harness; value space bounded by the alphabets; NaN operands excluded",
+    ),
 }
 NOT_YET = {}
